@@ -5,6 +5,7 @@ package scen
 import (
 	"fmt"
 	"sort"
+	"time"
 
 	"github.com/vapourismo/knx-go/knx"
 	"github.com/vapourismo/knx-go/knx/knxnet"
@@ -30,6 +31,7 @@ func (c Call) String() string { return fmt.Sprintf("CALL %s#%d", c.Call, c.ID) }
 
 type c13Params struct {
 	pause       int // ms
+	pauseUs     int // microseconds, added to pause (configurations that are not a whole number of milliseconds)
 	senders     int
 	perSender   int
 	maxBusy     int
@@ -42,7 +44,7 @@ type c13Params struct {
 
 func c13Run(p c13Params) func() {
 	return func() {
-		Pp := mc.Duration(p.pause) * ms
+		Pp := mc.Duration(p.pause)*ms + mc.Duration(p.pauseUs)*time.Microsecond
 		sock := fakesock.New("udp")
 		sock.LogHandoff = true
 		r, _ := knx.NewRouterOnSocket(sock, knx.RouterConfig{RetainCount: 4, PostSendPauseDuration: Pp})
@@ -73,7 +75,7 @@ func c13Run(p c13Params) func() {
 				return
 			}
 			n := 5
-			if p.pause == 0 {
+			if p.pause == 0 && p.pauseUs == 0 {
 				n = 3
 			}
 			c := mc.Choose(n, mc.Fault)
@@ -129,7 +131,7 @@ func c13Run(p c13Params) func() {
 }
 
 func c13Oracle(p c13Params) func(tr *mc.Trace) []h.Violation {
-	Pp := mc.Duration(p.pause) * ms
+	Pp := mc.Duration(p.pause)*ms + mc.Duration(p.pauseUs)*time.Microsecond
 	return func(tr *mc.Trace) []h.Violation {
 		vs := generic(tr, "C13", true)
 		bad := func(class, format string, a ...interface{}) {
@@ -300,6 +302,11 @@ func init() {
 	register("both", &h.Scenario{Name: "C13-pause20-2x2-slow-writes", Prop: "C13", P: 1, F: 2, D: 1, Run: c13Run(sw), Check: c13Oracle(sw)})
 	lb := c13Params{pause: 20, senders: 1, perSender: 4, lost: 4}
 	register("both", &h.Scenario{Name: "C13-pause20-lost4-busy-during-repeats", Prop: "C13", P: 1, F: 0, D: 1, Run: c13Run(lb), Check: c13Oracle(lb)})
+	// pauses that are not a whole number of milliseconds (0.5 ms, 0.9 ms, 1.9 ms)
+	for _, us := range []int{500, 900, 1900} {
+		q := c13Params{pauseUs: us, senders: 2, perSender: 2, maxBusy: 1, waits: []int{0, 10}}
+		register("both", &h.Scenario{Name: fmt.Sprintf("C13-pause%dus-2x2-busy1", us), Prop: "C13", P: 1, F: 1, D: 1, Run: c13Run(q), Check: c13Oracle(q)})
+	}
 	f := c13Params{pause: 20, senders: 8, perSender: 25, flat: true}
 	register("both", &h.Scenario{Name: "C13-flat-8x25", Prop: "C13", P: 0, F: 0, D: -1, Run: c13Run(f), Check: c13Oracle(f)})
 	t1 := c13Params{pause: 20, senders: 3, perSender: 2, maxBusy: 3, waits: []int{0, 10, 50, 100, 500}, busyAtStart: true}
